@@ -380,6 +380,34 @@ func (g *gen) perTaskExpr(spec *Spec) {
 	if nt > 8 {
 		maxOps = 1
 	}
+	if g.k.Chance(1, 6) {
+		// siblings: every task runs the SAME function with its own picture /
+		// pattern / layout parameter, several times, on one document - the
+		// workload that meets "the last picture I analysed" style state
+		if nt > 6 {
+			nt = g.k.Range(2, 6)
+		}
+		spec.Docs = []DocSpec{{ID: "dc", JSON: work.DocJSON(0, 0)}}
+		kind := g.w.Intn(4)
+		base := g.w.Intn(3000)
+		_, probe := work.Churn(kind, 0)
+		for t := 0; t < nt; t++ {
+			var ops []Op
+			for j := 0; j < 2; j++ {
+				text, _ := work.Churn(kind, base+t*2+j)
+				if j == 1 && g.w.Chance(1, 3) {
+					text = probe
+				}
+				id := fmt.Sprintf("s%d", j)
+				ops = append(ops, Op{Kind: "compile", Expr: id, Text: text, Family: "siblings", Exts: true})
+				for r := g.w.Range(2, 3); r > 0; r-- {
+					ops = append(ops, Op{Kind: "eval", Expr: id, Doc: "dc"})
+				}
+			}
+			spec.Tasks = append(spec.Tasks, ops)
+		}
+		return
+	}
 	if g.k.Chance(1, 5) {
 		// compile churn: a server compiling, per request, one of some forty
 		// expressions (anything that caches compiled or analysed program
